@@ -7,6 +7,7 @@ EXTENDS ParamCodec, Json, CSV
 TInt == [type |-> "integer"]
 TStr == [type |-> "string"]
 ObjXY == [type |-> "object", pk |-> <<"x", "y">>, ps |-> <<TInt, TStr>>]
+ObjK == [type |-> "object", pk |-> <<"k,1", "x">>, ps |-> <<TStr, TInt>>]
 Deep == [type |-> "object", pk |-> <<"o", "x">>,
          ps |-> <<[type |-> "object", pk |-> <<"y">>, ps |-> <<TStr>>], TInt>>]
 
@@ -25,18 +26,30 @@ Shapes == {
               S(<<"a", " ", "b">>), S(<<"a", "\t", "b">>), S(<<"a", "+", "b">>), S(<<"5", "%", "2", "0">>), S(<<"a", "&", "b", "=">>),
               S(<<"a", ",", "b">>), S(<<"a", "|", "b">>),
               \* values that BEGIN with the characters of a path style's prefix ("." for label, ";p=" for matrix)
-              S(<<".", "a">>), S(<<"p", "a">>), S(<<";", "p", "=", "a">>)}, garbage |-> {}],
+              S(<<".", "a">>), S(<<"p", "a">>), S(<<";", "p", "=", "a">>),
+              \* a slash: content of a path segment only when escaped
+              S(<<"a", "/", "b">>)}, garbage |-> {}],
    [id |-> "arrint", schemas |-> {[type |-> "array", items |-> TInt], [type |-> "array", items |-> TInt, maxItems |-> 2]},
     vals |-> {Arr(<<Num(28)>>), Arr(<<Num(4), Num(8)>>), Arr(<<Num(12), Num(0), Num(48)>>)}, garbage |-> {"nonnumeric"}],
    [id |-> "arrstr", schemas |-> {[type |-> "array", items |-> TStr]},
     vals |-> {Arr(<<S(<<"a">>)>>), Arr(<<S(<<"a">>), S(<<"b">>)>>),
               Arr(<<S(<<"a", "\t", "b">>), S(<<"c">>)>>), Arr(<<S(<<"a", " ", "b">>), S(<<"c">>)>>),
-              Arr(<<S(<<"a", "|", "b">>), S(<<"c", "+">>)>>), Arr(<<S(<<"a", ",", "b">>), S(<<"c">>)>>)},
+              Arr(<<S(<<"a", "|", "b">>), S(<<"c", "+">>)>>), Arr(<<S(<<"a", ",", "b">>), S(<<"c">>)>>),
+              \* items holding the delimiter of some path style (written escaped there: ParamCodec!Escapable)
+              Arr(<<S(<<"a", ".", "b">>), S(<<"c">>)>>), Arr(<<S(<<"a", ";", "p", "=", "b">>), S(<<"c", ",">>)>>)},
               \* (an empty string among the items is the open region "empty parameter values": not in the universe)
     garbage |-> {}],
-   [id |-> "obj", schemas |-> {ObjXY, [ObjXY EXCEPT !.pk = <<"x", "y">>] @@ [required |-> <<"y">>]},
-    vals |-> {Obj(<<"x">>, <<Num(4)>>), Obj(<<"x", "y">>, <<Num(4), S(<<"a">>)>>), Obj(<<"y">>, <<S(<<"a", "b">>)>>)},
+   \* additionalProperties absent / false / a schema; w is a property the schemas do not declare
+   [id |-> "obj", schemas |-> {ObjXY, ObjXY @@ [required |-> <<"y">>], ObjXY @@ [apFalse |-> TRUE], ObjXY @@ [apSchema |-> TInt],
+                                ObjXY @@ [apSchema |-> TInt, maxProperties |-> 1]},
+    vals |-> {Obj(<<"x">>, <<Num(4)>>), Obj(<<"x", "y">>, <<Num(4), S(<<"a">>)>>), Obj(<<"y">>, <<S(<<"a", "b">>)>>),
+              Obj(<<"w", "x">>, <<Num(8), Num(4)>>),
+              \* property values holding the delimiters of the object styles
+              Obj(<<"x", "y">>, <<Num(4), S(<<"a", ",", "b", "=", "c">>)>>), Obj(<<"y">>, <<S(<<"a", ".", "b", ";", "c">>)>>)},
     garbage |-> {"oddpairs"}],
+   \* a property NAME holding a delimiter
+   [id |-> "objk", schemas |-> {ObjK}, vals |-> {Obj(<<"k,1", "x">>, <<S(<<"a">>), Num(4)>>), Obj(<<"k,1">>, <<S(<<"a", "=">>)>>)},
+    garbage |-> {}],
    [id |-> "deep", schemas |-> {Deep},
     vals |-> {Obj(<<"o", "x">>, <<Obj(<<"y">>, <<S(<<"a">>)>>), Num(4)>>), Obj(<<"o">>, <<Obj(<<"y">>, <<S(<<"b">>)>>)>>)},
     garbage |-> {}],
@@ -52,55 +65,76 @@ Shapes == {
    [id |-> "allof", schemas |-> {[allOf |-> <<TInt>>]}, vals |-> {Num(28)}, garbage |-> {}]
 }
 
-SomeVal(sh) == CHOOSE v \in sh.vals : TRUE
+P == <<"p">>
+PQ == <<"p", "q">>
+AnyDefined(c, sh) == \E v \in sh.vals : Defined(c, v)
+SomeVal(c, sh) == CHOOSE v \in sh.vals : Defined(c, v)
 
 (* a schema default (a value of the shape that the schema accepts), for the shapes whose schemas are plain *)
-HasDefault(sh, s) == sh.id \in {"int", "num", "bool", "str", "arrint", "arrstr", "obj"} /\ \E v \in sh.vals : Valid(s, v, "plain")
-WithDefault(sh, s, df) == IF df THEN s @@ [default |-> CHOOSE v \in sh.vals : Valid(s, v, "plain")] ELSE s
+HasDefault(sh, s) == sh.id \in {"int", "num", "bool", "str", "arrint", "arrstr", "obj"} /\ \E v \in sh.vals : Valid(s, v, "plain") /\ Typed(s, v)
+WithDefault(sh, s, df) == IF df THEN s @@ [default |-> CHOOSE v \in sh.vals : Valid(s, v, "plain") /\ Typed(s, v)] ELSE s
 
 (* where a kind of garbage makes sense *)
 GarbageOK(c, sh, g) ==
-   CASE g \in {"nonnumeric", "overflow32"} -> ~(c.style \in {"deepObject"}) /\ Defined(c, SomeVal(sh))
-     [] g = "oddpairs"   -> ~c.explode /\ c.style # "deepObject" /\ Defined(c, SomeVal(sh))
+   CASE g \in {"nonnumeric", "overflow32"} -> ~(c.style \in {"deepObject"}) /\ AnyDefined(c, sh)
+     [] g = "oddpairs"   -> ~c.explode /\ c.style # "deepObject" /\ AnyDefined(c, sh)
      [] g = "noprefix"   -> c.in = "path" /\ c.style \in {"label", "matrix"}
 
-DecoyOK(c, v) == ~(v.t = "obj" /\ c.style # "deepObject") /\ ~(c.style = "deepObject" /\ ~IsFlatObj(v) /\ FALSE)
+DecoyOK(c, v) == ~(v.t = "obj" /\ c.style # "deepObject")
+
+(* the encoding modes that give this value a wire text of its own *)
+ModeOK(c, v, m) ==
+   \/ m = "min"
+   \/ m = "all" /\ c.in \in {"path", "query"} /\ WireM(c, P, v, "all") # WireM(c, P, v, "min")
+   \/ m = "rawbr" /\ c.style = "deepObject"
+
+(* An exploded form object in the query is spread over query keys of its own: which keys of the request belong to  *)
+(* it is not determined by the wire (OAS leaves it open).  The universe keeps to what is determined: undeclared    *)
+(* keys are the object's only when the schema gives them a type (additionalProperties schema), and then the        *)
+(* request carries no foreign key (it would be the object's as well).                                             *)
+ExplodedFormObj(c, sh) == c.in = "query" /\ c.style = "form" /\ c.explode /\ sh.id \in {"obj", "objk"}
+Attributable(c, sh, s, v, ot) ==
+   ExplodedFormObj(c, sh) => /\ (UndeclaredKeys(s, v) # {} => Has(s, "apSchema"))
+                              /\ (ot # "-" => ~Has(s, "apSchema"))
 
 VARIABLE case
 Init ==
    \* ot: what else the request carries -- nothing, an unrelated query parameter z, or an entry named "P" (query names and
    \* cookie names are case-sensitive: it is not the parameter "p")
-   \/ \E c \in Cells, sh \in Shapes, r \in BOOLEAN, d \in BOOLEAN, df \in BOOLEAN, ot \in {"-", "z", "upper"} :
-        \E s \in sh.schemas, v \in sh.vals :
-           /\ Defined(c, v) /\ (c.in = "path" => r) /\ (d => DecoyOK(c, v))
-           /\ (sh.id = "deep" => c.style = "deepObject")
-           /\ (df => HasDefault(sh, s) /\ ~d) /\ (ot \in {"z", "upper"} => ~d /\ ~df)
+   \/ \E c \in Cells, sh \in Shapes : \E s \in sh.schemas, v \in sh.vals :
+        /\ Defined(c, v) /\ (sh.id = "deep" => c.style = "deepObject")
+        /\ \E r \in BOOLEAN, d \in BOOLEAN, df \in BOOLEAN, ot \in {"-", "z", "upper"}, m \in Modes :
+           /\ (c.in = "path" => r) /\ (d => DecoyOK(c, v))
+           /\ (df => ~d /\ HasDefault(sh, s)) /\ (ot \in {"z", "upper"} => ~d /\ ~df)
            /\ (ot = "z" => c.in = "query") /\ (ot = "upper" => c.in \in {"query", "cookie"})
+           /\ (m # "min" => ~d /\ ~df /\ ot = "-" /\ r) /\ ModeOK(c, v, m)
+           /\ Attributable(c, sh, s, v, ot)
            /\ case = [cell |-> c, shape |-> sh.id, schema |-> WithDefault(sh, s, df), required |-> r, presence |-> "present", v |-> v,
-                      wire |-> Wire(c, "p", v), decoy |-> d, defaults |-> df, other |-> (ot = "z"), upper |-> (ot = "upper")]
+                      mode |-> m, wire |-> WireM(c, P, v, m), decoy |-> d, defaults |-> df, other |-> (ot = "z"), upper |-> (ot = "upper")]
    \* absent: alone, next to a decoy, next to an unrelated query parameter ("other"), and with a schema default that
    \* validation is asked to install (defaults): a default never stands in for a required parameter
    \/ \E c \in Cells, sh \in Shapes, r \in BOOLEAN, d \in BOOLEAN, df \in BOOLEAN, ot \in {"-", "z", "upper"} :
         \E s \in sh.schemas :
-           /\ Defined(c, SomeVal(sh)) /\ (c.in = "path" => r) /\ (d => DecoyOK(c, SomeVal(sh)))
+           /\ AnyDefined(c, sh) /\ (c.in = "path" => r) /\ (d => DecoyOK(c, SomeVal(c, sh)))
            /\ (sh.id = "deep" => c.style = "deepObject")
            /\ (df => HasDefault(sh, s) /\ ~d) /\ (ot \in {"z", "upper"} => ~d)
            /\ (ot = "z" => c.in = "query") /\ (ot = "upper" => c.in \in {"query", "cookie"})
+           /\ Attributable(c, sh, s, SomeVal(c, sh), ot)
            /\ case = [cell |-> c, shape |-> sh.id, schema |-> WithDefault(sh, s, df), required |-> r, presence |-> "absent",
-                      v |-> SomeVal(sh), decoy |-> d, defaults |-> df, other |-> (ot = "z"), upper |-> (ot = "upper")]
+                      v |-> SomeVal(c, sh), decoy |-> d, defaults |-> df, other |-> (ot = "z"), upper |-> (ot = "upper")]
    \/ \E c \in Cells, sh \in Shapes, r \in BOOLEAN :
         \E s \in sh.schemas, g \in sh.garbage \cup (IF sh.id = "int" THEN {"noprefix"} ELSE {}) :
            /\ GarbageOK(c, sh, g) /\ (c.in = "path" => r)
            /\ case = [cell |-> c, shape |-> sh.id, schema |-> s, required |-> r, presence |-> "garbage",
-                      g |-> g, v |-> SomeVal(sh), wire |-> Garbage(c, "p", g), decoy |-> FALSE, defaults |-> FALSE, other |-> FALSE, upper |-> FALSE]
+                      g |-> g, wire |-> Garbage(c, P, g), decoy |-> FALSE, defaults |-> FALSE, other |-> FALSE, upper |-> FALSE]
    \* emptiness: the parameter is there, its value is the empty text ("p=", "X-P:", "p=" in the cookie)
    \/ \E c \in Cells, sh \in Shapes, r \in BOOLEAN, ae \in BOOLEAN :
         \E s \in sh.schemas :
            /\ c.in \in {"query", "header", "cookie"} /\ c.style \in {"form", "simple"}
-           /\ sh.id \in {"int", "num", "bool", "str", "arrint"} /\ Defined(c, SomeVal(sh))
+           /\ sh.id \in {"int", "num", "bool", "str", "arrint"} /\ AnyDefined(c, sh)
            /\ (ae => c.in = "query")                   \* allowEmptyValue exists for query parameters only
            /\ case = [cell |-> c, shape |-> sh.id, schema |-> s, required |-> r, presence |-> "empty", allowEmpty |-> ae,
-                      v |-> SomeVal(sh), decoy |-> FALSE, defaults |-> FALSE, other |-> FALSE, upper |-> FALSE,
+                      decoy |-> FALSE, defaults |-> FALSE, other |-> FALSE, upper |-> FALSE,
                       wire |-> (CASE c.in = "query" -> [kind |-> "query", pairs |-> <<Pair("p", "")>>]
                                   [] c.in = "header" -> [kind |-> "header", val |-> ""]
                                   [] c.in = "cookie" -> [kind |-> "cookie", val |-> ""])]
@@ -110,14 +144,14 @@ Spec == Init /\ [][Next]_case
 (* the decoy parameter "pq" (same cell, same schema) always carries this value *)
 DecoyWire == [c \in Cells |-> [sh \in {x.id : x \in Shapes} |->
                 LET shp == CHOOSE x \in Shapes : x.id = sh IN
-                IF Defined(c, SomeVal(shp)) THEN Wire(c, "pq", SomeVal(shp)) ELSE [kind |-> "none"]]]
+                IF AnyDefined(c, shp) THEN Wire(c, PQ, SomeVal(c, shp)) ELSE [kind |-> "none"]]]
 
 Emit == CSVWrite("%1$s", <<ToJson(IF case.decoy THEN case @@ [decoywire |-> DecoyWire[case.cell][case.shape]] ELSE case)>>,
                  "cases.ndjson")
 
-(* D: Wire is injective per cell and schema shape -- decoding as its inverse is well defined *)
+(* D: Wire is injective per cell, schema shape and encoding mode -- decoding as its inverse is well defined *)
 Injective ==
-   \A c \in Cells, sh \in Shapes :
-      \A v1, v2 \in sh.vals : (Defined(c, v1) /\ Defined(c, v2) /\ Wire(c, "p", v1) = Wire(c, "p", v2)) => v1 = v2
+   \A c \in Cells, sh \in Shapes, m \in Modes :
+      \A v1, v2 \in sh.vals : (Defined(c, v1) /\ Defined(c, v2) /\ WireM(c, P, v1, m) = WireM(c, P, v2, m)) => v1 = v2
 ASSUME Injective
 =============================================================================
